@@ -215,6 +215,20 @@ class BehavioralRTLIRToVVisitorL2( BehavioralRTLIRToVVisitorL1 ):
   #-----------------------------------------------------------------------
 
   def visit_BinOp( s, node ):
+    # A constant sub-expression has been folded by the type checker. Emit the
+    # folded value at the enforced width: re-evaluating it in the target
+    # language with operands narrowed to that width is only correct for
+    # + - * & | ^, not for >> % / ( e.g. in_ + (4 >> 1) with a 2-bit in_ ).
+    if hasattr( node, '_value' ) and node._value is not None and \
+       not isinstance( node._value, bool ):
+      try:
+        nbits = node.Type.get_dtype().get_length()
+        value = int( node._value )
+        if 0 <= value < 2**nbits:
+          return f"{nbits}'d{value}"
+      except Exception:
+        pass
+
     node.left._top_expr = True
     node.right._top_expr = True
 
